@@ -3,6 +3,14 @@
 import json, os
 root = os.path.dirname(os.path.dirname(os.path.abspath(__file__)))
 CHECKS = [
+ dict(id="C17", level="exploration", engine="inputs (differential vs encoding/json)", design="§5 C17",
+      technique="bounded exhaustive input enumeration (all byte strings up to a length over a reduced alphabet, all token sequences, all nested values over a leaf pool), differential against encoding/json",
+      text="Every uGO value of depth <= 2 with <= 2 elements over a 50-leaf pool (boundary numbers, NaN/Inf, HTML/U+2028/invalid-UTF-8/control strings, bytes of every base64 size class up to 1000 bytes, chars, undefined) in array/map/syncMap plus 24 non-plain objects is marshalled: output must be valid JSON, equal to encoding/json for plain values, and round-trip through Unmarshal. Every byte string of length <= 5 (thorough 7) over a 16-symbol JSON alphabet, every string of <= 6 bytes over the U+2028/U+2029 bytes and every sequence of <= 3 (thorough 4) tokens from a 33-token alphabet is given to Valid, Unmarshal, Compact (both escape modes) and Indent (3 prefix/indent pairs) and compared with encoding/json.",
+      note="Trusted: encoding/json of the installed toolchain. The \\b/\\f vs \\u0008/\\u000c spelling (a Go release difference) and nil vs empty containers are treated as equal."),
+ dict(id="C20", level="exploration", engine="inputs", design="§5 C20",
+      technique="bounded exhaustive input enumeration (all nested values over leaf pools on both sides of the boundary), round-trip oracles",
+      text="Every uGO value of depth <= 2 (thorough 3) with <= 2 elements over a 28-leaf pool round-trips through ToInterface/ToObject(/Alt); every Go value of the same shapes over the canonical counterparts (incl. nil slices/maps) round-trips the other way; every other integer/float width at its boundaries keeps its numeric value; every unsupported Go type alone and at every position of nested containers is an error; registry types incl. nil and unregistered pointers never panic.",
+      note="nil and empty containers are interchangeable (property text). Values outside the pools are not covered."),
  dict(id="C01", level="exploration", engine="gen (differential)", design="§5 C01",
       technique="bounded exhaustive program enumeration, differential execution (optimizer off vs on at several budgets) on every program",
       text="Four families are enumerated completely: G1 every binding form that can shadow a builtin (24 forms incl. for-in key/value, catch identifier, params, globals, enclosing functions, hidden bindings) x 14 evaluable builtin names x 17 use sites x use expressions, with and without a literal const in scope; G2 every operator tree of depth 1 over a 24-literal pool (thorough: depth 2 over 11 literals) and every evaluable builtin on every literal, in 13 contexts with side-effect probes; G3 pairs of foldable expressions plus an imported module under OptimizerLimit 1..5 and default; G4 const/iota groups used in folded expressions. Both compilations are run on equal inputs and value, probe log, output, globals and error name+message are compared; an optimizer-only refusal must carry the runtime error of a constant sub-expression.",
@@ -20,6 +28,7 @@ CHECKS = [
       text="Every ordered pair of a 69-value (thorough: 119) boundary pool is evaluated under all 17 binary operators and every value under the 4 unary operators, both through Object.Equal/BinaryOp and through a VM without recovery; the algebraic laws are checked on every pair and int/uint/float/char/bool arithmetic is compared with a Go reference written from docs/operators.md. Exhaustive over the pool; nothing is sampled.",
       note="Trusted: the Go reference table transcribed from docs/operators.md; values outside the pool are not covered."),
 ]
+CHECKS.sort(key=lambda c: c["id"])
 NOT_APPLICABLE = []
 _claimed = {c["id"] for c in CHECKS}
 for i in range(1, 21):
